@@ -47,6 +47,8 @@ def _host_of(result):
         h = urlref.split(full)["host"]
     except Exception:
         return None
+    if h and (h != h.strip() or " " in h):
+        return None   # a 'host' made of / containing whitespace (e.g. a cache tail starting with a space) is not a registered name: outside the domain
     return h or None
 
 
@@ -59,6 +61,8 @@ def eval_host_helpers(case):
         n = normalize_url(u, normalize_amp=amp, infer_redirection=red)
         hn = get_normalized_hostname(u, normalize_amp=amp, infer_redirection=red)
         exp = _host_of(n)
+        if exp is None and hn is not None and not hn.strip():
+            hn = None
         if isinstance(normalize_url(u, normalize_amp=amp, infer_redirection=red, unsplit=False), str):
             exp = hn = None   # (resolved) input cannot be parsed and was returned unchanged: no host to agree on
         case["_changed"] = exp is not None and exp not in u
@@ -72,6 +76,8 @@ def eval_host_helpers(case):
             f = fingerprint_url(u, strip_suffix=ss)
             hf = get_fingerprinted_hostname(u, strip_suffix=ss, infer_redirection=True)
             exp = _host_of(f)
+            if exp is None and hf is not None and not hf.strip():
+                hf = None
             if isinstance(fingerprint_url(u, strip_suffix=ss, unsplit=False), str):
                 exp = hf = None
             if (hf or None) != exp:
